@@ -376,6 +376,7 @@ func execPow(line string, w []string) string {
 	// one below, at, and one above the target those bits stand for.  The first two must pass, the third must not.
 	if want, has := c.specPrescribed(chain, own, height); has && own >= 0 && c.legalTarget(want) {
 		prefix := strings.Join(w[:len(w)-8], " ")
+		pts := all[parent].ts // the probes carry their parent's timestamp: 'not before its parent's'
 		probe := func(bits uint32, hash *big.Int) (acc bool, pl string) {
 			defer func() {
 				if recover() != nil {
@@ -390,9 +391,9 @@ func execPow(line string, w []string) string {
 			if err != nil {
 				panic(err)
 			}
-			pb := &blk{proposer: acct(miner).Address, height: height, id: pid, pre: blks[parent].id, storage: powStorage(int64(bits)), ts: all[parent].ts,
+			pb := &blk{proposer: acct(miner).Address, height: height, id: pid, pre: blks[parent].id, storage: powStorage(int64(bits)), ts: pts,
 				pub: acct(miner).PubJSON, sign: sg}
-			pl = fmt.Sprintf("%s %d %d %d %d %s 1 p v", prefix, height, parent, bits, all[parent].ts, hash)
+			pl = fmt.Sprintf("%s %d %d %d %d %s 1 p v", prefix, height, parent, bits, pts, hash)
 			acc, _ = inst.CheckMinerMatch(bctx, pb)
 			return
 		}
@@ -417,6 +418,19 @@ func execPow(line string, w []string) string {
 			out.Violate(xvlib.Violation{Key: "pow-rejects-at-target", What: fmt.Sprintf("pow CheckMinerMatch refused a flawless block whose hash equals the target %s its own ancestors prescribe (bits %d) and accepts one below: 'not above the target' includes the target", T, want),
 				Ops: []string{lineT}, Impl: []string{"reject"}})
 		default:
+			// is it the timestamp?  the same block stamped after every block of the ledger
+			for _, b := range all {
+				if b.ts >= pts {
+					pts = b.ts + 1000000000
+				}
+			}
+			accLate, _ := probe(want, T)
+			pts = all[parent].ts
+			if accLate {
+				out.Violate(xvlib.Violation{Key: "pow-rejects-timestamp-of-parent", What: fmt.Sprintf("pow CheckMinerMatch refused a flawless block (prescribed bits %d, hash = target) carrying its parent's timestamp %d and accepts it with a timestamp after every block of the ledger: 'not before its parent's' is judged against another block", want, pts),
+					Ops: []string{lineT}, Impl: []string{"reject"}})
+				break
+			}
 			// the implementation demands another target: find it among the near-miss rules and exhibit the block it accepts instead
 			found := false
 			seen := map[uint32]bool{want: true}
